@@ -106,9 +106,16 @@ def exhaustive_structures(rng):
                     out.append((Op("OMatmul", [A, mk4(N, K)], [[d, 2]]), "exhaustive A@B", torch.float64, coqrun.Z))
     return out
 
+def _mixed_block(V, rng, tier):
+    """operands of two dtypes (exact, promoted dtype, either order) and scalars that are not dyadic - see harness/mixdtype.py"""
+    import torch, torchtt, mixdtype
+    dist = {}
+    mixdtype.run_block(V, rng, torch, torchtt, True, dist, 12 if tier == "quick" else 120)
+    return {"mixed_dtype_and_non_dyadic_scalar_cases": dist}
+
 def run(tier, seed, replay=None):
     import torch
     dtypes = [(torch.float64, coqrun.Z), (torch.complex128, coqrun.ZI), (torch.float64, coqrun.Z), (torch.float32, coqrun.Z)]
     return exprcheck.run(PID, tier, seed, gen_case, 300, 5000, RULE + ("; thorough tier additionally enumerates EVERY size structure of the products, the transpose and the "
                          "operator sums for order 1..2 with sizes 1..3" if tier == "thorough" else ""), nontrivial, dtypes,
-                         extra_cases=exhaustive_structures if tier == "thorough" else None)
+                         extra_cases=exhaustive_structures if tier == "thorough" else None, post=_mixed_block)
